@@ -125,7 +125,12 @@ def api_job(job):
         bad = "unknown"
     import copy
 
-    h_plain = aggfam.harvest(copy.deepcopy(case)) if bad is None else None
+    h_plain = aggfam.harvest(copy.deepcopy(case))
+    if not h_plain["ok"]:
+        # the election cannot be estimated at all (with or without calls): nothing to learn about call validation from it
+        return {"job": list(job), "ok": False, "exc": h_plain.get("exc"), "bad": None, "lhs": [], "rhs": [], "stops": [], "fails": [], "office": office, "skipped": True}
+    if bad is not None:
+        h_plain = None
     case["params"].update({"lhs_called_contests": lhs, "rhs_called_contests": rhs, "stop_model_call": stops})
     h = aggfam.harvest(case)
     res = {"job": list(job), "ok": h["ok"], "exc": h.get("exc"), "bad": bad, "lhs": lhs, "rhs": rhs, "stops": stops, "fails": [], "office": office}
@@ -216,6 +221,8 @@ def run(chk):
     for o in aj:
         chk.count({"api": o["job"][1], "ok": o["ok"]}, nontrivial=True, sample={"api": o["job"][1], "lhs": o["lhs"], "rhs": o["rhs"], "stops": o["stops"], "outcome": o["exc"] or "completed"})
         replay = {"kind": "api", "job": o["job"]}
+        if o.get("skipped"):
+            continue
         if o["bad"]:
             if o["ok"] or o["exc"][0] != "BootstrapElectionModelException":
                 chk.violation(f"contradictory / unknown call ({o['bad']}) was not rejected with the dedicated error: {o['exc'] or 'estimates produced'}", replay, {"kind": "api-validation"})
